@@ -166,7 +166,7 @@ pub fn check(tree: &Expr, acc: &mut Acc) {
         let expected_refused = if has_clear(tree) && bad.is_empty() { base_refused } else { !bad.is_empty() };
         if !matches!(alt, C::Panic(_)) && refused != expected_refused {
             acc.violate(Violation::new(
-                if refused { "C12:supported-expression-refused:with-run-options".to_string() } else { format!("C12:inexpressible-construct-compiled:{}:with-run-options", bad[0]) },
+                if refused { "C12:supported-expression-refused:with-run-options".to_string() } else { format!("C12:inexpressible-construct-compiled:{}:with-run-options", bad.first().map(|s| s.as_str()).unwrap_or("answer-differs-from-the-default-options")) },
                 format!("compile({}) with options depth={d} threads={th:?} {} although the tree {}", tree.show(), if refused { "fails" } else { "succeeds" }, if bad.is_empty() { "is expressible".to_string() } else { format!("contains {bad:?}") }),
                 json!({"kind": "tree", "tree": tree, "depth": d, "threads": th}),
             ));
